@@ -419,6 +419,8 @@ class Interp:
             return ("str", l["v"])
         if l["k"] == "Char" and len(l["v"].encode("utf-8")) == 1:
             return ord(l["v"])
+        if l["k"] == "Byte":
+            return int(l["v"])
         raise Unsupported("literal " + l["k"])
 
     # ------------------------------------------------------------------ statements
@@ -1096,6 +1098,9 @@ class Interp:
             return OptV(T, self.deref(args[0]))     # Result modelled as Option: values are bounded by the universe
         if tyname == "Unification" and name == "new" and ("Unification", "new") in self.p.methods:
             return self.call_fn(self.p.methods[("Unification", "new")], g, [])
+        if tyname == "String" and name in ("from_utf8", "from_utf8_lossy"):
+            import strprof
+            return strprof.from_utf8(self.deref(args[0]))
         if tyname in ("Rc", "Box", "Arc") and name == "new":
             return args[0]            # value semantics: sharing / identity of the allocation is not modelled
         if tyname in ("Rc", "Arc") and name in ("make_mut", "get_mut"):
